@@ -23,9 +23,12 @@ BasicOutcome(o) == IF Crashed(o) THEN o.kind
                    ELSE IF o.status = 401 THEN "401-without-basic-challenge"
                    ELSE IF o.status = 400 THEN "bad-request"
                    ELSE "not-run-not-401"
+\* an OPTIONS request has no user handler to run (the framework's default handler answers it): there "the fang let the request through"
+\* -- any answer that is not the fang's 401 / 400 -- stands for "ran"
+Through(o) == ~Crashed(o) /\ ~o.ran /\ o.status \notin {400, 401}
 JudgeBasic(r) ==
   LET allowed == AllowedBasic(r.scn.pairs, r.scn.hdr)
-      out     == BasicOutcome(r.obs) IN
+      out     == IF r.scn.method = "OPTIONS" /\ Through(r.obs) THEN "ran" ELSE BasicOutcome(r.obs) IN
   [ok  |-> out \in allowed,
    sig |-> [mod |-> "basic", hdr |-> r.scn.hdr.kind,
             cred |-> (IF CredOK(r.scn.pairs, r.scn.hdr.cred) THEN "configured" ELSE "not-configured"),
